@@ -371,6 +371,8 @@ func (r *editResult) signature() string {
 	switch {
 	case r.symptom == "unparseable(Invalid escape sequence)" && has("@string-nonprintable"):
 		return "edit:string-nonprintable-written-as-u-escape"
+	case unparse && has("@object-first-key-for") && !has("@inline-block") && !has("@unterminated-file-end") && !has("@lead-comment-on-open-brace-line") && !has("@string-nonprintable"):
+		return "edit:object-first-key-for"
 	case r.symptom == "unparseable(Invalid 'for' expression)" && has("@object-first-key-for"):
 		return "edit:object-first-key-for"
 	case unparse && has("@inline-block"):
